@@ -124,11 +124,26 @@ def expand_selects(atoms, val, limit=16):
     return out
 
 
+def consistent(atoms):
+    """False when the list contains an atom and its negation over the same SSA operands
+    (the same loaded value tested twice): such a path is infeasible."""
+    seen = set()
+    for a in atoms:
+        if a[0] in ir.NEG and len(a) == 3:
+            if (ir.NEG[a[0]], a[1], a[2]) in seen:
+                return False
+            seen.add((a[0], a[1], a[2]))
+    return True
+
+
 def ret_cases(f, limit=256):
-    """[(path, atoms, retval_expr)] over all acyclic returning paths, selects expanded"""
+    """[(path, atoms, retval_expr)] over all acyclic returning paths, selects expanded;
+    paths testing the same SSA value both ways are dropped as infeasible"""
     out = []
     for p in enum_paths(f, limit=limit):
         at = path_atoms(f, p)
+        if not consistent(at):
+            continue
         r = f.blocks[p[-1]].insts[-1]
         if r.op != "ret":
             continue
